@@ -590,7 +590,11 @@ class Interp:
                     return BoundMethod(self, r, obj)
                 if isinstance(r, ast.AST):
                     return self.eval(r, Env(), k.module)
-            raise Unsupported(f"attribute {attr} of abstract object {obj.kind} ({norm(node)})")
+                if obj.attrs.get("__initialised_from_source__"):
+                    # the object's attributes were all produced by lifting its own __init__: a missing
+                    # attribute is an AttributeError at run time
+                    raise LiftRaise(f"AttributeError: '{k.name}' object has no attribute '{attr}'", node)
+            raise Unsupported(f"attribute {attr} of abstract object {obj.kind} ({norm(node) if node is not None else attr})")
         if isinstance(obj, Module):
             sub = f"{obj.name}.{attr}"
             if sub in self.prog.modules:
@@ -788,6 +792,7 @@ class Interp:
             self.call_function(init, list(args), dict(kwargs), self_obj=o)
         elif args or kwargs:
             raise Unsupported(f"{cls.name}() takes no arguments")
+        o.attrs["__initialised_from_source__"] = True
         return o
 
     def is_hashable_obj(self, x):
